@@ -579,8 +579,9 @@ func c15PingDuringMessage(c *h.Ctx, server bool) {
 // Write after the armed deadline has passed fails with a timeout and puts nothing on the wire.
 type deadlineConn struct {
 	*wsFake
-	dmu sync.Mutex
-	dl  time.Time
+	dmu   sync.Mutex
+	dl    time.Time
+	stall int // > 0: the peer takes only this many bytes of the next Write and then stalls until the deadline
 }
 
 type c15TimeoutErr struct{}
@@ -602,7 +603,50 @@ func (c *deadlineConn) Write(p []byte) (int, error) {
 	if !dl.IsZero() && time.Now().After(dl) {
 		return 0, c15TimeoutErr{}
 	}
+	c.dmu.Lock()
+	st := c.stall
+	c.stall = 0
+	c.dmu.Unlock()
+	if st > 0 && st < len(p) && !dl.IsZero() {
+		c.wsFake.Write(p[:st])
+		time.Sleep(time.Until(dl) + time.Millisecond)
+		return st, c15TimeoutErr{}
+	}
 	return c.wsFake.Write(p)
+}
+
+// c15StalledPeer: the peer takes the first bytes of a frame and stalls; the write times out with part of the frame
+// on the wire. From then on the connection is dead for writing: a ping, a data message, a close — from whichever
+// goroutine — must all fail and add NOTHING to the wire (anything more would sit inside the unfinished frame).
+func c15StalledPeer(c *h.Ctx, server bool) {
+	in := fmt.Sprintf("wsconc stalled-peer role=%s: SetWriteDeadline(60ms); WriteMessage(600B) of which the peer takes 10 bytes; then Ping, WriteMessage, Close", roleStr(server))
+	tr := &deadlineConn{wsFake: newWsFake(nil)}
+	conn := ws.VerifNewConn(tr, server, 0, 4096, false)
+	var first error
+	var later []string
+	n0 := -1
+	res := h.Safe(func() string {
+		conn.SetWriteDeadline(time.Now().Add(60 * time.Millisecond))
+		tr.dmu.Lock()
+		tr.stall = 10
+		tr.dmu.Unlock()
+		first = conn.WriteMessage(ws.BinaryMessage, c15DataPayload(600))
+		n0 = len(tr.Written())
+		conn.SetWriteDeadline(time.Time{})
+		e1 := conn.WriteControl(ws.PingMessage, []byte("p"), time.Now().Add(time.Second))
+		e2 := conn.WriteMessage(ws.TextMessage, []byte("after"))
+		e3 := conn.WriteControl(ws.CloseMessage, ws.FormatCloseMessage(1000, ""), time.Now().Add(time.Second))
+		for _, e := range []error{e1, e2, e3} {
+			later = append(later, fmt.Sprint(e != nil))
+		}
+		return "ok"
+	})
+	wire := tr.Written()
+	c.Hold(res == "ok" && first != nil, "C15.stalled_peer.write_times_out", in, fmt.Sprint(res, " ", first), "a timeout error")
+	// (n0 is 10, or 0 when this process was stalled past the deadline before the write began)
+	c.Hold(res != "ok" || (len(wire) == n0 && n0 <= 10 && strings.Join(later, ",") == "true,true,true"), "C15_wire.nothing_inside_an_unfinished_frame", in,
+		fmt.Sprintf("%d bytes on the wire after the timed-out write, %d at the end; later writes failed: %s", n0, len(wire), strings.Join(later, ",")), "nothing added after the timed-out write; later writes failed: true,true,true")
+	c.Case("stalled-peer/"+roleStr(server), in, true)
 }
 
 // c15Deadlines: each write is governed by ITS OWN deadline. A control frame sent with a short deadline (an
@@ -686,6 +730,7 @@ func c15(c *h.Ctx) {
 		c15PingDuringMessage(c, server)
 		c15Deadlines(c, server, 0)
 		c15Deadlines(c, server, 5*time.Second)
+		c15StalledPeer(c, server)
 	}
 	kinds := []string{"ping", "pong", "close", "xclose", "xclose-partial"}
 	run := 0
